@@ -392,6 +392,9 @@ def _m_append(ex, st, c, args, kwargs, node):
         if oc[0] == "raise":
             out.append((s, oc))
             continue
+        hook = getattr(ex.env.trusted, "append_facts", None)
+        if hook is not None:
+            s.pc.extend(hook(c, x, oc[1]))
         for s2, ctl in writeback(ex, s, node, oc[1]):
             out.append((s2, ("val", V.VNone) if ctl[0] != "raise" else ("raise", ctl[1])))
     return out
